@@ -57,6 +57,9 @@ CHECKS["C17"] = ("exhaustive signature enumeration with reflect.MakeFunc-manufac
 CHECKS["C19"] = ("model-based history testing: exhaustive short histories + rapid histories of generic instantiations and typed member writes against a per-instance acceptance model",
          "Every history of instantiations Box<A> (and Pair<A,B> in the seeded part) with interleaved typed property writes / typed method calls on any live instance; each write must be accepted iff the value belongs to that instance's own type argument and read back unchanged, whatever was instantiated before.",
          "Per-instance model from the statement; the concurrent-instantiation variant is not built (see DESIGN).")
+CHECKS["C18"] = ("invariant checking over generated and injected sources (token span invariants) and planted-fault location testing through the CLI",
+         "Token span invariants (bounds, order, line = newline count, literal = source slice) on every corpus file and on generated programs with seeded injections of multi-byte text, CRLF, comments, heredoc/nowdoc, interpolation, full-width space and inline HTML at token boundaries; and generated one-statement-per-line programs with exactly one planted fault (five runtime faults, three parse faults) moved over all top-level positions, whose printed file:line must be the planted line.",
+         "Only the line of a diagnostic is asserted; a lexer crash is C01's subject and makes a span case unjudgeable here.")
 NOT_YET = {
 }
 
